@@ -251,6 +251,52 @@ fn judge(exprs: &[E], t: &[&str], cfg_first: bool, levels: &[usize], first_of_in
     }
 }
 
+/// An enum without tag/content whose data-carrying variants are all guarded: when the guards drop them the rest is a
+/// plain unit enum and must be generated; when they are kept the enum is algebraic without a tag (a rejected
+/// construct, C08). `shared` = both data variants carry the same attributes, otherwise the second one carries
+/// `not(<first expression>)` in addition (kept only if both rules keep it).
+fn judge_untagged(exprs: &[E], t: &[&str], acc: &mut Acc) {
+    let g = attrs(exprs);
+    let src = format!(
+        "#[typeshare]\npub enum HU {{ Plain, {g} Data(u32), Other, {g} Sv2 {{ x: u32 }} }}\n#[typeshare]\npub struct Control {{ pub x: u32 }}\n"
+    );
+    let (k, shape) = keep(exprs, t);
+    let cfg = Cfg { target_os: t.iter().map(|s| s.to_string()).collect(), ..Cfg::plain() };
+    acc.parses += 1;
+    acc.evals += 1;
+    if !t.is_empty() {
+        acc.nontrivial += 1;
+    }
+    let observed = match pipeline::parse_only(&[SrcFile::single(src.clone())], &cfg) {
+        Ok(m) => match m.values().next() {
+            Some(pd) => {
+                let hu = pd.enums.iter().find(|e| e.shared().id.original == "HU");
+                let names: Vec<String> = hu.map(|e| e.shared().variants.iter().map(|v| v.shared().id.original.clone()).collect()).unwrap_or_default();
+                if !pd.errors.is_empty() {
+                    format!("rejected: {}", pd.errors[0].error.to_string().chars().take(60).collect::<String>())
+                } else {
+                    format!("generated {names:?}")
+                }
+            }
+            None => "nothing parsed".to_string(),
+        },
+        Err(o) => format!("failure: {}", o.kind()),
+    };
+    let ok = if k { observed.starts_with("rejected") } else { observed == "generated [\"Plain\", \"Other\"]" };
+    if ok {
+        if k {
+            acc.kept += 1
+        } else {
+            acc.dropped += 1
+        }
+    } else {
+        acc.vios.add(Violation {
+            sig: format!("C13|untagged-enum-data-variants|expected={}|observed={}|{shape}", if k { "kept (enum rejected: no tag)" } else { "dropped (plain unit enum)" }, observed.split(':').next().unwrap_or("").split('[').next().unwrap_or("").trim()),
+            detail: json!({"cfg": g, "target_os": t, "expected_kept": k, "observed": observed, "source": src}),
+        });
+    }
+}
+
 fn merge(rep: &mut Report, name: &str, accs: Vec<Acc>, stats: crate::explore::ExploreStats, extra: serde_json::Value) {
     let mut inputs = 0u64;
     let mut nontrivial = 0u64;
@@ -329,6 +375,33 @@ pub fn run(args: &[String]) -> i32 {
             u64::MAX,
         );
         merge(&mut rep, "single_attribute_depth3", accs, stats, json!({"expr_depth": depth_a + 1, "leaves": 5, "target_lists": 16, "levels": 8, "attribute_orders": 2}));
+    }
+    // 1b. the guards decide whether an untagged enum is a unit enum: single attribute depth ≤ 2 and pairs of leaves
+    {
+        let lists = &lists4;
+        let (accs, stats) = explore(
+            |ch| {
+                gen_expr(ch, 1, &LEAVES_FULL);
+            },
+            |ch, acc: &mut Acc| {
+                let e = gen_expr(ch, 1, &LEAVES_FULL);
+                let second = ch.choose("second_attribute", LEAVES_FULL.len() + 1);
+                let ti = ch.choose("targets", lists.len());
+                let mut es = vec![e];
+                if second > 0 {
+                    es.push(LEAVES_FULL[second - 1].clone());
+                }
+                if ti == 0 {
+                    acc.inputs += 1;
+                }
+                judge_untagged(&es, &lists[ti], acc);
+            },
+            Mode::Product,
+            3,
+            report::threads(),
+            u64::MAX,
+        );
+        merge(&mut rep, "untagged_enum_with_guarded_data_variants", accs, stats, json!({"expr_depth": 2, "leaves": 5, "second_attribute": "none or one leaf", "target_lists": 16}));
     }
     // 2. two separate cfg attributes, each depth ≤ 2 (70 × 70), and three of depth 1 leaves
     {
